@@ -506,6 +506,14 @@ def replay(path):
         bad = json.loads(open(op).read().splitlines()[-1])["bad"]
         print("replay:", "row still FAILS" if bad else "row passes")
         return 1 if bad else 0
+    if rep.get("kind") == "mtstress":
+        build_harness()
+        op = os.path.join(WORK, "replay", "stress.out")
+        sh([BIN, "mtstress", rep["scenario"], str(rep["threads"]), str(rep["iterations"]), op], timeout=3000)
+        r = json.loads(open(op).readline())
+        print(json.dumps(r, indent=1)[:3000])
+        print(f"replay: {r['bad']} bad iteration(s) of {r['iterations']}")
+        return 1 if r["bad"] else 0
     if rep.get("kind") == "mt":
         build_harness()
         d = os.path.join(WORK, "replay")
